@@ -19,7 +19,7 @@ Proof.
   intros fs S G. induction fuel as [|n IH]; intros body rem sigma H.
   - lia.
   - destruct rem as [|s rest].
-    + simpl. unfold fallback.
+    + simpl. unfold fallback. destruct (f_fallback fs); try discriminate.
       destruct (last_assign body None) as [x|]; [destruct (assoc x sigma)|]; discriminate.
     + destruct s as [x e|xs es|c a b|e| | |]; simpl in H.
       * simpl. destruct (texpr fs S G sigma e); [apply IH; lia | discriminate].
@@ -425,11 +425,19 @@ Proof. intros fs Hfs S G fuel body rest sigma. subst fs. split; reflexivity. Qed
 
 (** * Soundness *)
 
+Lemma ef_arity_cases :
+  f_arity expected_facts = ArityStrict \/ f_arity expected_facts = ArityStrictNonEmpty.
+Proof. first [left; reflexivity | right; reflexivity]. Qed.
+
+(** a definition and its summary: (1) at every argument list of FULL arity where the function has a value,
+    the expression has it; (2) under the lenient arity rule: a call without arguments has a value only if
+    the definition has no parameters (this is where the guard on defaults enters) *)
 Definition fun_rel (g : fsem) (su : summary) : Prop :=
   forall ps e, su = Some (ps, e) ->
-  forall vs v rho, g vs = Some v ->
-    (forall x q, assoc x (combine ps vs) = Some q -> rho x = Some q) ->
-    length ps = length vs /\ seval rho e = Some v.
+  (forall vs v rho, g vs = Some v -> length ps = length vs ->
+     (forall x q, assoc x (combine ps vs) = Some q -> rho x = Some q) ->
+     seval rho e = Some v) /\
+  (f_arity expected_facts <> ArityStrict -> forall v, g [] = Some v -> ps = []).
 
 Definition tab_rel (F : list fsem) (S : list summary) : Prop := Forall2 fun_rel F S.
 
@@ -507,28 +515,49 @@ Proof.
       * eapply IH; eauto.
 Qed.
 
+Lemma Forall2_len {A B} (R : A -> B -> Prop) l1 l2 : Forall2 R l1 l2 -> length l1 = length l2.
+Proof. induction 1; simpl; congruence. Qed.
+
+Lemma nested_ok_nonempty : forall fs ps a l, nested_arity_ok fs ps (a :: l) = true.
+Proof. intros fs ps a l. unfold nested_arity_ok. destruct (f_arity fs); reflexivity. Qed.
+
 Lemma apply_subs_sound : forall g ps body sargs vs v s (rho0 : valuation),
   fun_rel g (Some (ps, body)) ->
   Forall2 (fun s v => seval rho0 s = Some v) sargs vs ->
   g vs = Some v ->
+  nested_arity_ok expected_facts ps sargs = true ->
   apply_subs expected_facts ps sargs body = Some s ->
   seval rho0 s = Some v.
 Proof.
-  intros g ps body sargs vs v s rho0 Hrel HF Hg Ha. unfold apply_subs in Ha.
+  intros g ps body sargs vs v s rho0 Hrel HF Hg Hn Ha. unfold apply_subs in Ha.
+  destruct (Hrel ps body eq_refl) as [Hfull Hshort].
   destruct sargs as [|a sargs'].
   - inversion Ha; subst s. inversion HF; subst vs.
-    destruct (Hrel ps body eq_refl [] v rho0 Hg) as [_ Hs]; [|exact Hs].
-    intros x q. rewrite combine_nil. discriminate.
-  - destruct (Nat.eqb (length ps) (length (a :: sargs'))); [|discriminate Ha].
-    change (f_subs expected_facts) with SubsSim in Ha. red_in Ha.
-    inversion Ha; subst s. rewrite subs_sim_sound.
-    destruct (Hrel ps body eq_refl vs v
-                (fun x => match assoc x (combine ps (a :: sargs')) with
-                          | Some s => seval rho0 s
-                          | None => rho0 x
-                          end) Hg) as [_ Hs]; [|exact Hs].
-    intros x q Hx. destruct (assoc_combine_F2 rho0 ps _ _ HF x q Hx) as [s0 [Hs0 Hv0]].
-    rewrite Hs0. exact Hv0.
+    assert (Hps : ps = []).
+    { destruct ef_arity_cases as [E|E].
+      - unfold nested_arity_ok in Hn. rewrite E in Hn. destruct ps; [reflexivity | discriminate Hn].
+      - apply (Hshort (fun H => ltac:(rewrite E in H; discriminate H)) v Hg). }
+    subst ps. apply (Hfull [] v rho0 Hg eq_refl).
+    intros x q Hx. discriminate Hx.
+  - assert (Hlen : length ps = length (a :: sargs') /\
+                   Some (subs_sim (combine ps (a :: sargs')) body) = Some s).
+    { change (f_subs expected_facts) with SubsSim in Ha. red_in Ha.
+      destruct ef_arity_cases as [E|E]; rewrite E in Ha; red_in Ha;
+        destruct (Nat.eqb (length ps) (length (a :: sargs'))) eqn:El; try discriminate Ha;
+        apply Nat.eqb_eq in El; split; assumption. }
+    destruct Hlen as [Hlen Hs]. inversion Hs; subst s. rewrite subs_sim_sound.
+    apply (Hfull vs v).
+    + exact Hg.
+    + rewrite Hlen. exact (Forall2_len _ _ _ HF).
+    + intros x q Hx. destruct (assoc_combine_F2 rho0 ps _ _ HF x q Hx) as [s0 [Hs0 Hv0]].
+      rewrite Hs0. exact Hv0.
+Qed.
+
+Lemma fill_defaults_full : forall n d (vs : list Q), length vs = n -> fill_defaults n d vs = Some vs.
+Proof.
+  intros n d vs H. unfold fill_defaults. subst n.
+  rewrite Nat.leb_refl, Nat.sub_diag, Nat.sub_0_r. cbn [Nat.leb andb].
+  rewrite skipn_all. cbn [map]. rewrite app_nil_r. reflexivity.
 Qed.
 
 Section Sound.
@@ -621,11 +650,12 @@ Section Sound.
         rewrite texpr_ECall in Ht. unfold call_with in Ht. rewrite eval_ECall in He.
         destruct (targs ef S G sigma args) as [sargs|] eqn:Hta; [|discriminate Ht].
         destruct (nth_error S (N.to_nat f)) as [[[ps body]|]|] eqn:HS; try discriminate Ht.
+        destruct (nested_arity_ok ef ps sargs) eqn:Hn; [|discriminate Ht].
         destruct (evals F G rho args) as [vs|] eqn:Hev; [|discriminate He].
         destruct (nth_error F (N.to_nat f)) as [g|] eqn:HF; [|discriminate He].
         pose proof (IH _ _ _ _ Hi Hta Hev) as Hargs.
         pose proof (Forall2_nth _ _ _ Htab _ _ _ HF HS) as Hrel.
-        exact (apply_subs_sound _ _ _ _ _ _ _ _ Hrel Hargs He Ht).
+        exact (apply_subs_sound _ _ _ _ _ _ _ _ Hrel Hargs He Hn Ht).
       - (* ECallKw *) intros f args IH sigma rho s v Hi Ht He. discriminate He.
       - (* EOther *) intros sigma rho s v Hi Ht He. discriminate He.
       - (* CCmp *) intros l IHl rest IHr sigma rho c' b Hi Ht He.
@@ -741,67 +771,97 @@ Section Sound.
     Qed.
   End Body.
 
-  Lemma tfun_sound : forall fd, fun_rel (run_fun F fd) (tfun expected_facts S fd).
+  Lemma tfun_sound : forall fd,
+    (f_arity expected_facts <> ArityStrict -> guard_fd fd = true) ->
+    fun_rel (run_fun F fd) (tfun expected_facts S fd).
   Proof.
-    intros fd ps e Heq vs v rho Hrun Hext.
+    intros fd Hguard ps e Heq.
     unfold tfun, tbody_top in Heq.
     change (f_cf expected_facts) with (CfContinuation BrCopy BrCopy) in Heq. red_in Heq.
     destruct (tbody expected_facts S (fd_globals fd) (Datatypes.S (ssize (fd_body fd)))
                 (fd_body fd) (fd_body fd) (map (fun p => (p, SSym p)) (fd_params fd)))
       as [e'| |] eqn:Ht; try discriminate Heq.
     inversion Heq; subst ps e; clear Heq.
-    unfold run_fun in Hrun.
-    destruct (Nat.eqb (length (fd_params fd)) (length vs)) eqn:Hlen; [|discriminate Hrun].
-    apply Nat.eqb_eq in Hlen.
-    destruct (exec F (fd_globals fd) (combine (fd_params fd) vs) (fd_body fd))
-      as [v'| |] eqn:He; try discriminate Hrun.
-    inversion Hrun; subst v'; clear Hrun.
-    split; [exact Hlen|].
-    eapply tbody_sound; [|exact Ht|exact He].
-    apply inv_init; assumption.
+    split.
+    - intros vs v rho Hrun Hlen Hext.
+      unfold run_fun in Hrun. rewrite (fill_defaults_full _ _ _ (eq_sym Hlen)) in Hrun.
+      destruct (exec F (fd_globals fd) (combine (fd_params fd) vs) (fd_body fd))
+        as [v'| |] eqn:He; try discriminate Hrun.
+      inversion Hrun; subst v'; clear Hrun.
+      eapply tbody_sound; [|exact Ht|exact He].
+      apply inv_init; assumption.
+    - intros Hl v Hrun. specialize (Hguard Hl).
+      unfold run_fun in Hrun.
+      destruct (fill_defaults (length (fd_params fd)) (fd_defaults fd) []) as [vs'|] eqn:Hf;
+        [|discriminate Hrun].
+      unfold fill_defaults in Hf. cbn [length] in Hf. rewrite Nat.sub_0_r in Hf.
+      unfold guard_fd in Hguard.
+      destruct (fd_params fd) as [|p ps']; [reflexivity|].
+      apply Nat.ltb_lt in Hguard.
+      destruct (Nat.leb (length (p :: ps')) (length (fd_defaults fd))) eqn:El.
+      + apply Nat.leb_le in El. lia.
+      + rewrite andb_false_r in Hf. discriminate Hf.
   Qed.
 End Sound.
 
 Lemma tab_from : forall fds F S,
+  (f_arity expected_facts <> ArityStrict -> forallb guard_fd fds = true) ->
   tab_rel F S -> tab_rel (sems_from fds F) (summaries_from expected_facts fds S).
 Proof.
-  induction fds as [|fd r IH]; intros F S H.
+  induction fds as [|fd r IH]; intros F S Hg H.
   - exact H.
-  - cbn [sems_from summaries_from]. apply IH. apply Forall2_app; [exact H|].
-    constructor; [|constructor]. apply tfun_sound. exact H.
+  - cbn [sems_from summaries_from]. apply IH.
+    + intro Hl. specialize (Hg Hl). cbn [forallb] in Hg. apply andb_true_iff in Hg. exact (proj2 Hg).
+    + apply Forall2_app; [exact H|].
+      constructor; [|constructor]. apply tfun_sound; [exact H|].
+      intro Hl. specialize (Hg Hl). cbn [forallb] in Hg. apply andb_true_iff in Hg. exact (proj1 Hg).
 Qed.
 
-Lemma tab_all : forall fds, tab_rel (sems fds) (summaries expected_facts fds).
-Proof. intros fds. apply tab_from. constructor. Qed.
+Lemma arity_ok_guard : forall fds, arity_ok expected_facts fds ->
+  f_arity expected_facts <> ArityStrict -> forallb guard_fd fds = true.
+Proof.
+  intros fds H Hl. unfold arity_ok in H.
+  destruct ef_arity_cases as [E|E]; rewrite E in H.
+  - exfalso. exact (Hl E).
+  - exact H.
+Qed.
+
+Lemma tab_all : forall fds, arity_ok expected_facts fds ->
+  tab_rel (sems fds) (summaries expected_facts fds).
+Proof. intros fds H. apply tab_from; [exact (arity_ok_guard fds H) | constructor]. Qed.
 
 Lemma sound_unrenamed : forall fs, fs = expected_facts ->
   forall fds i ps e vs v rho,
+    arity_ok fs fds ->
     nth_error (summaries fs fds) i = Some (Some (ps, e)) ->
     py_call fds i vs = Some v ->
+    length ps = length vs ->
     (forall x q, assoc x (combine ps vs) = Some q -> rho x = Some q) ->
-    length ps = length vs /\ seval rho e = Some v.
+    seval rho e = Some v.
 Proof.
-  intros fs Hfs fds i ps e vs v rho HS Hcall Hext. subst fs.
+  intros fs Hfs fds i ps e vs v rho Hok HS Hcall Hlen Hext. subst fs.
   unfold py_call in Hcall.
   destruct (nth_error (sems fds) i) as [g|] eqn:HF; [|discriminate Hcall].
-  pose proof (Forall2_nth _ _ _ (tab_all fds) _ _ _ HF HS) as Hrel.
-  exact (Hrel ps e eq_refl vs v rho Hcall Hext).
+  pose proof (Forall2_nth _ _ _ (tab_all fds Hok) _ _ _ HF HS) as Hrel.
+  exact (proj1 (Hrel ps e eq_refl) vs v rho Hcall Hlen Hext).
 Qed.
 
 Lemma sound_renamed : forall fs, fs = expected_facts ->
   forall fds i margs e vs v rho,
+    arity_ok fs fds ->
     margs <> [] ->
     fn_to_sympy fs fds i margs = Some e ->
     py_call fds i vs = Some v ->
     Forall2 (fun m x => seval rho m = Some x) margs vs ->
     seval rho e = Some v.
 Proof.
-  intros fs Hfs fds i margs e vs v rho Hne Hfn Hcall HF2. subst fs.
+  intros fs Hfs fds i margs e vs v rho Hok Hne Hfn Hcall HF2. subst fs.
   unfold fn_to_sympy in Hfn.
   destruct (nth_error (summaries expected_facts fds) i) as [[[ps e0]|]|] eqn:HS;
     try discriminate Hfn.
   unfold py_call in Hcall.
   destruct (nth_error (sems fds) i) as [g|] eqn:HF; [|discriminate Hcall].
-  pose proof (Forall2_nth _ _ _ (tab_all fds) _ _ _ HF HS) as Hrel.
-  exact (apply_subs_sound _ _ _ _ _ _ _ _ Hrel HF2 Hcall Hfn).
+  pose proof (Forall2_nth _ _ _ (tab_all fds Hok) _ _ _ HF HS) as Hrel.
+  destruct margs as [|m0 margs']; [exfalso; exact (Hne eq_refl)|].
+  exact (apply_subs_sound _ _ _ _ _ _ _ _ Hrel HF2 Hcall (nested_ok_nonempty _ _ _ _) Hfn).
 Qed.
